@@ -54,7 +54,29 @@ func FromReader(reader io.Reader) (*Dialogue, error) {
 		listener = &parserListener{}
 	)
 
-	antlr.ParseTreeWalkerDefault.Walk(listener, p.Dialogue())
+	errorListener := &syntaxErrorListener{}
+	lexer.RemoveErrorListeners()
+	lexer.AddErrorListener(errorListener)
+	p.RemoveErrorListeners()
+	p.AddErrorListener(errorListener)
+
+	parseTree := p.Dialogue()
+	if len(errorListener.errors) != 0 {
+		return nil, fmt.Errorf("failed to parse dialogue: %w", errors.Join(errorListener.errors...))
+	}
+
+	antlr.ParseTreeWalkerDefault.Walk(listener, parseTree)
 
 	return listener.dialogue, nil
+}
+
+// syntaxErrorListener collects the syntax errors reported by the lexer and the parser.
+type syntaxErrorListener struct {
+	*antlr.DefaultErrorListener
+	errors []error
+}
+
+// SyntaxError is called when the lexer or the parser encounters a syntax error.
+func (l *syntaxErrorListener) SyntaxError(_ antlr.Recognizer, _ interface{}, line, column int, msg string, _ antlr.RecognitionException) {
+	l.errors = append(l.errors, fmt.Errorf("line %d:%d %s", line, column, msg))
 }
